@@ -1,10 +1,10 @@
 SPEC = dict(
     props_file="C18",
     legs=[dict(family="countmin", oracles=["prop_layout"], profiles=["debug"], n_quick=100, n_thorough=1000)],
-    level_text="Theorems (Props/C18.v): image sizes / retained counts are functions of the configuration, from the models' invariants. "
+    level_text="Theorems (Props/C18.v and its parts Props/C18_<family>.v): image sizes / retained counts are functions of the configuration, from the models' invariants. "
                "Tie: serialize().len() of the crate checked against the formula on every serialize observation.",
     level_note="CPC 99.9th-percentile size and the t-digest centroid bound are empirical: no theorem (DESIGN.md section 9). "
-               "Families covered so far are listed in Props/C18.v.",
+               "The base file holds the Count-Min statements; the other families are parts (covered / NOT covered families are listed at the end of this note).",
     technique="Coq size theorems from model invariants + size oracle on crate output",
     trusted=[],
     assumptions=[],
